@@ -58,13 +58,8 @@ def run(chk):
                       sample={"schema": text, "struct": s.name, "value": v})
     chk.log(f"{len(cases)} cases ({nvec} std vectors, {len(schemas)} schemas); implementation-side failures: {len(fails)}")
     chk.coverage["traces_validated_against_impl"] = len(cases)
-    mism = []
-    if broken is None or chk.corr_buildable(["Corr/Serde.vo"]):
-        try:
-            mism = common.run_cases("Serde", cases)
-        except common.CoqError as e:
-            broken = f"correspondence could not be evaluated: {e}"
-    report(chk, fails, mism, meta, broken, "Corr.Serde.check_case (model Py.PySerde = Wire.wire)", "Props/C02.v")
+    mism, translated, broken = serde_run.run_serde_cases(chk, cases, broken)
+    report(chk, fails, mism, meta, broken, "Corr.Serde.check_case (model Py.PySerde = Wire.wire)", "Props/C02.v", translated=translated)
     chk.assumptions += [
         "the canonical format is Wire.v; it is anchored on every run to tests/standardized (gen/StdVectors.v, std_vectors_are_canonical) and, in C03, to the generated C++ code",
         "harness/ref_wire.py (independent reference encoder) only produces canonical inputs and finds failing inputs; Coq decides",
